@@ -71,7 +71,7 @@ func runC11(c *Ctx) {
 					if fa, ok := st.Addr.(*ssa.FieldAddr); ok {
 						o, s := ownerOfFieldBase(fa.X.Type())
 						if o == "trie/rmt.info" {
-							saved[s.Field(fa.Field).Name()] = T(st.Val).String()
+							saved[fieldNameOf(s.Field(fa.Field))] = T(st.Val).String()
 						}
 					}
 				}
@@ -158,7 +158,7 @@ func runC11(c *Ctx) {
 		if pk != nil {
 			_, st := ownerOfFieldBase(pk.Types.Scope().Lookup("RegularMerkleTree").Type())
 			for i := 0; st != nil && i < st.NumFields(); i++ {
-				name := st.Field(i).Name()
+				name := fieldNameOf(st.Field(i))
 				if name == "root" || name == "appendPath" || name == "size" || name == "db" {
 					continue
 				}
